@@ -64,9 +64,11 @@ func (rt refTable) allows(client, wallet, account, op string) bool {
 var permOps = []string{"Sign", "Sign beacon attestation", "Sign beacon proposal", "Access account", "Lock account", "Unlock account", "Create account", "Lock wallet", "Unlock wallet"}
 
 var permWallets = []WalletSpec{
-	{Name: "Wallet1", Kind: "nd", Accounts: []string{"acc1", "acc10", "Acc2", "xacc1"}},
+	// Account names are free-form: some contain the path separator, and some would read as another account's path if
+	// they were tidied up like file paths (they are names, not paths).
+	{Name: "Wallet1", Kind: "nd", Accounts: []string{"acc1", "acc10", "Acc2", "xacc1", "sub/acc1", "./acc1", "sub/../acc1", "sub//acc1"}},
 	{Name: "Wallet10", Kind: "nd", Accounts: []string{"acc1"}},
-	{Name: "Wallet2", Kind: "nd", Accounts: []string{"acc1", "val-1"}},
+	{Name: "Wallet2", Kind: "nd", Accounts: []string{"acc1", "val-1", "../Wallet1/acc1", "val-1/."}},
 	{Name: "xWallet2", Kind: "nd", Accounts: []string{"acc1"}},
 	{Name: "wallet3", Kind: "nd", Accounts: []string{"acc1"}},
 	{Name: "Empty", Kind: "nd"}, // holds nothing at start-up: whatever it lists was created through Dirk
@@ -76,7 +78,8 @@ var walletPatterns = []string{"Wallet1", "Wallet2", ".*", "Wallet.*", "Wallet[12
 	// escape classes in both polarities, Unicode classes, POSIX classes, the pattern's own text anchors
 	`Wallet\D`, `Wallet\d`, `Wallet\d+`, `\w+2`, `Wallet\S`, `\D+`, `\W?Wallet1`, `[[:alpha:]]+1`, `Wallet\x31`, `Wallet\pN`, `Wallet\PN`, `\AWallet2\z`, `Wallet1\b`, `Wallet\B1`}
 var accountPatterns = []string{"", "acc1", "acc.*", "acc1|Acc2", "Acc2|acc1", "val-.*", "ACC1", ".*1", "^acc1$", "acc1.?", "(x)?acc1", "acc(1|10)", "made1", "made[0-9]+", "made1|made2|made3", "made.*",
-	`acc\D`, `acc\d`, `acc\d{2}`, `val\W1`, `val\w1`, `\S+`, `\Aacc1\z`, `[[:^digit:]]+\d`, `acc\PL`}
+	`acc\D`, `acc\d`, `acc\d{2}`, `val\W1`, `val\w1`, `\S+`, `\Aacc1\z`, `[[:^digit:]]+\d`, `acc\PL`,
+	"sub/acc1", "sub/.*", ".*/acc1"}
 
 func drawTable(rc *RunCtx) (refTable, []string) {
 	ch := rc.Ch
